@@ -86,6 +86,7 @@ def parse_alternatives(expression):
 
 # split on operators
 split_on_ops = re.compile('([<>=]+)').split
+is_operators = re.compile('[<>=]+$').match
 
 
 def parse_relationship(expression):
@@ -124,7 +125,8 @@ def parse_relationship(expression):
         # A package name (and optional architecture restrictions) followed by a
         # relationship to specific version(s) of the package.
         tokens = [t.strip() for t in split_on_ops(version) if t and t.strip()]
-        if len(tokens) != 2:
+        operators = [t for t in tokens if is_operators(t)]
+        if len(tokens) != 2 or len(operators) != 1:
             # Encountered something unexpected!
             raise ValueError(
                 'Corrupt package relationship expression: Splitting operator '
